@@ -277,6 +277,15 @@ pub fn gen_c09(seed: u64, tier: Tier) -> CaseSet {
                 let x: Vec<Atom> = a1.iter().map(|a| Atom { payload: p2, ..*a }).collect();
                 let y: Vec<Atom> = a2.iter().map(|a| Atom { payload: p1, ..*a }).collect();
                 specs.push(("halves-signatures-swapped", mk(x, y, n, 1)));
+                // the two aggregate signatures exchanged between the halves while the bitmasks stay: the SUM of the two
+                // aggregates is unchanged (pairwise: half 1 names s1[i] but carries s2[i]'s signature on the other payload)
+                if at.len() >= 2 {
+                    let m = at.len() / 2;
+                    let x: Vec<Atom> = (0..m).map(|i| Atom { claimed: at[i], key: at[m + i], payload: p2 }).collect();
+                    let mut y: Vec<Atom> = (0..m).map(|i| Atom { claimed: at[m + i], key: at[i], payload: p1 }).collect();
+                    for v in &at[2 * m..] { y.push(Atom { claimed: *v, key: *v, payload: p2 }); }
+                    specs.push(("halves-aggregates-exchanged", mk(x, y, n, 1)));
+                }
                 // a validator in both halves: distinct stake below the threshold, per-half sum above
                 if !below.is_empty() {
                     let (b1, _) = (below.clone(), 0);
@@ -324,7 +333,7 @@ pub fn gen_c09(seed: u64, tier: Tier) -> CaseSet {
             push(&mut cases, &mut descr, &mut sigs, &mut stats, &mut seen, txt, format!("case {}: cert kind {} mutation {} ({} validators, {})", cid, spec.kind, name, n, fam), v, name, &mut cid);
         }
     }
-    stats.rule = "for each base epoch (stake families of C03) one valid vote and one valid certificate of a random kind with the signer subset exactly at the threshold, plus the mutation catalogue: votes - other signer named, signed by another key, signature for another slot / hash / vote kind (real signatures transplanted on the wire level), signer index n / n+k / huge; certificates - subset just below / above the threshold, declared stake inflated (also below threshold), one signature by another key, two signatures exchanged, signature for another slot / hash, halves' signatures swapped, signatures from another vote kind, the same validators in both halves, bitmask longer / shorter than the validator set, signer bit beyond the validator set; every fourth valid certificate additionally with a point of small order (outside the prime-order subgroup, invisible to the pairing) added to each of its aggregate signatures on the wire - must be rejected; non-trivial = a mutated message; distinct by content".into();
+    stats.rule = "for each base epoch (stake families of C03) one valid vote and one valid certificate of a random kind with the signer subset exactly at the threshold, plus the mutation catalogue: votes - other signer named, signed by another key, signature for another slot / hash / vote kind (real signatures transplanted on the wire level), signer index n / n+k / huge; certificates - subset just below / above the threshold, declared stake inflated (also below threshold), one signature by another key, two signatures exchanged, signature for another slot / hash, halves' signatures swapped (each half signed the other half's payload), the halves' aggregate signatures exchanged (sum of both aggregates unchanged), signatures from another vote kind, the same validators in both halves, bitmask longer / shorter than the validator set, signer bit beyond the validator set; every fourth valid certificate additionally with a point of small order (outside the prime-order subgroup, invisible to the pairing) added to each of its aggregate signatures on the wire - must be rejected; non-trivial = a mutated message; distinct by content".into();
     let mut v: Vec<_> = verdicts.into_iter().collect(); v.sort();
     stats.distribution.push(("verdicts".into(), v.iter().map(|(k, c)| format!("{}={}", k, c)).collect::<Vec<_>>().join(", ")));
     let mut v: Vec<_> = muts.into_iter().collect(); v.sort();
